@@ -97,6 +97,13 @@ CHECKS = {
          "Trusted: equivalence of sequential block execution with concurrent workers (no shared memory, disjoint files). Set iteration order is owned "
          "exhaustively only at the read-group seam; elsewhere the seed sweep is sampling.",
          "DESIGN.md §3 C06"),
+ "C10": ("model_checking",
+         "explicit enumeration of all experiment sequences (histories) up to length 2/3 over a 3-experiment menu x threads {1, virtual pool} x {yaml, list} x grouping; differential oracle against stand-alone runs",
+         "Each joint invocation is a complete pipeline execution; for every experiment in every position of every ordering all its output files "
+         "must equal (byte-wise, header dropped) those of the stand-alone run of that experiment, and the combined_* tables must contain exactly "
+         "the per-experiment columns. The state of the search is the history of experiments already processed by the process.",
+         "Trusted: tree comparison in vlib/run.py; stand-alone runs use --prefix <experiment>.",
+         "DESIGN.md §3 C10"),
 }
 
 NOT_YET = {}
